@@ -213,8 +213,23 @@ Definition disp_obs := (bool * bytes * list (bytes * N) * status * nat)%type.
 Definition stream_beq (tab : list (bytes * N)) (frames : list bytes) (obs : list disp_obs) : bool :=
   forallb (fun o : disp_obs => let '(strict, q, ds, st, taken) := o in
                                poll_obs_beq strict q tab frames ds st taken) obs.
-Definition frames_beq (pubs : list (bytes * bytes * bytes * bytes)) : bool :=
-  forallb (fun x : bytes * bytes * bytes * bytes => let '(p, n, payload, m) := x in frame_beq p n payload m) pubs.
+(* what each Publisher call put on the wire: (prefix, name, payload, index of its frame); the
+   payload is given by its index in the deserialiser table, or literally *)
+Definition pub_beq (tab : list (bytes * N)) (frames : list bytes) (x : bytes * bytes * (nat + bytes) * nat) : bool :=
+  let '(p, n, pl, fi) := x in
+  match nth_error frames fi with
+  | None => false
+  | Some m =>
+      match pl with
+      | inr payload => frame_beq p n payload m
+      | inl ti => match nth_error tab ti with
+                  | Some e => frame_beq p n (fst e) m
+                  | None => false
+                  end
+      end
+  end.
+Definition pubs_beq (tab : list (bytes * N)) (frames : list bytes) (pubs : list (bytes * bytes * (nat + bytes) * nat)) : bool :=
+  forallb (pub_beq tab frames) pubs.
 (* a strict dispatcher with prefix q given the single frame  q SP name SP payload *)
 Definition name_status (tab : list (bytes * N)) (q payload n : bytes) : status :=
   snd (poll N (tab_deser tab) true q [frame q n payload]).
